@@ -225,6 +225,10 @@ static void check_transition(const ClassAdapter<T>& A, PoolState<T>& P, const PO
     if (A.dump(*P.slot[i]) == A.dump(*sh)) { count(CNT_CHECKS); continue; }
     bool okk = false; try { okk = A.ok(*P.slot[i]); } catch (...) {}
     bool ok_sh = false; if (!okk) { try { ok_sh = A.ok(*sh); } catch (...) {} }     // only needed to excuse an invalid slot
+    // an operation that exits with a precondition exception may leave flags set by an earlier const operation in
+    // place (a product marked reduced by contains(), then add_constraint with an inequality its Grid component
+    // rejects): the state of an object after an exceptional exit is C14's subject, not a value-semantics matter
+    if (!okk && ok_sh && !aliased && o.kind == K_MUT && i == o.a && ret.compare(0, 10, "exception:") == 0) { count(CNT_USER + 3); continue; }
     if (!okk && ok_sh) { if (violcap().admit(A.name + "|ok|" + site + trig)) report_violation(site, "invariant:OK()-of-slot", trig, inj, "slot " + std::to_string(i) + " OK() false", "OK() true"); continue; }
     bool eq = false; try { eq = A.equal(*P.slot[i], *sh); } catch (...) {}
     count(CNT_CHECKS);
@@ -428,7 +432,17 @@ int main(int argc, char** argv) {
   run_class(domain_adapter<PPL::BD_Shape<mpq_class> >("BD_Shape<mpq_class>"), depth, i123);
   run_class(domain_adapter<PPL::Octagonal_Shape<mpq_class> >("Octagonal_Shape<mpq_class>"), depth, i123);
 #elif VF_GROUP == 5
-  { const int ip[3] = {5, 1, 2}; run_class(powerset_adapter<PPL::C_Polyhedron>("Pointset_Powerset<C_Polyhedron>"), depth, ip); }
+  { const int ip[3] = {5, 1, 2};
+    ClassAdapter<PPL::Pointset_Powerset<PPL::C_Polyhedron> > PA = powerset_adapter<PPL::C_Polyhedron>("Pointset_Powerset<C_Polyhedron>");
+    // answers that are documented to depend on the SEQUENCE of disjuncts (size, first disjunct, syntactic contains /
+    // entailment) change when a const operation omega-reduces its argument: not value functions, dropped here (C15
+    // keeps them); group 9 does the same
+    { std::vector<Mut<PPL::Pointset_Powerset<PPL::C_Polyhedron> > > k;
+      for (size_t i = 0; i < PA.muts.size(); ++i) { const std::string& n = PA.muts[i].name;
+        if (n == "size()" || n == "drop_first_disjunct" || n == "contains" || n == "strictly_contains" || n == "definitely_entails" || n == "add_first_disjunct_of_arg") continue;
+        k.push_back(PA.muts[i]); }
+      PA.muts.swap(k); }
+    run_class(PA, depth, ip); }
   run_class(product_adapter<PPL::Domain_Product<PPL::C_Polyhedron, PPL::Grid>::Constraints_Product>("Constraints_Product<C_Polyhedron,Grid>"), depth, i123);
 #elif VF_GROUP == 6
   { const int il[3] = {1, 2, 3};
@@ -494,7 +508,7 @@ int main(int argc, char** argv) {
 #error "VF_GROUP not set"
 #endif
   if (REPLAY) return REPLAY_RC;
-  J extra; extra.arr("classes", PER_CLASS).num("depth", depth).num("oracle_comparisons", counter(CNT_CHECKS)).num("plain_operation_crashes_skipped", counter(CNT_USER)).num("states_already_inconsistent_skipped", counter(CNT_USER + 1)).num("return_comparisons_skipped_precondition_exception_depends_on_lazy_state", counter(CNT_USER + 2));
+  J extra; extra.arr("classes", PER_CLASS).num("depth", depth).num("oracle_comparisons", counter(CNT_CHECKS)).num("plain_operation_crashes_skipped", counter(CNT_USER)).num("states_already_inconsistent_skipped", counter(CNT_USER + 1)).num("return_comparisons_skipped_precondition_exception_depends_on_lazy_state", counter(CNT_USER + 2)).num("OK_checks_skipped_after_exceptional_exit", counter(CNT_USER + 3));
   J st; st.str("t", "stats").num("states", TOTAL_STATES).num("transitions", TOTAL_TRANS).num("traces_validated_against_impl", TOTAL_TRANS)
     .boolean("exhaustive", ALL_COMPLETE).str("bound", "pool of 3 objects, pool histories of depth " + std::to_string(depth) + " (states to depth-1 deduplicated on the three dumps, every pool operation applied in every state)")
     .arr("samples", SAMPLES).raw("extra", extra.done()).dbl("wall_s", now_s() - t0);
